@@ -22,6 +22,15 @@ pub enum Op {
 }
 
 impl Op {
+    /// Node identifiers the operation refers to.
+    pub fn node_refs(&self) -> Vec<u32> {
+        match self {
+            Op::Alias(i, _) | Op::Export(i, _) | Op::Unexport(i) | Op::SetName(i, _) | Op::Remove(i) => vec![*i],
+            Op::SetArg(i, _, a) | Op::UnsetArg(i, _, a) => vec![*i, *a],
+            Op::Register(_) | Op::Unregister(_) | Op::Instantiate(_) | Op::Import(..) | Op::DefineType(..) => vec![],
+        }
+    }
+
     pub fn kind(&self) -> &'static str {
         match self {
             Op::Register(_) => "Register",
